@@ -108,6 +108,14 @@ pub fn run(ctx: &mut Ctx) {
         let input = gen_input(t);
         check(&input, st)
     });
+    // map-level documents of C15 (exact sample-point / break boundaries, nested breaks, colliding object times)
+    let cases = ctx.tier.pick(60_000u64, 600_000u64);
+    ctx.pbt("c07-map-level", cases, 700, |t, st| {
+        let (d, k) = crate::props::c15::gen_case(t);
+        let text = crate::props::c15::render(&d, k);
+        let input = Input { bytes: text.into_bytes(), family: "map-level", sentinel: None };
+        check(&input, st)
+    });
     // scale: very many rejected lines in one section (1 000 .. 131 073) before real content, very long lines, big sliders
     let cases = ctx.tier.pick(200u64, 2_000u64);
     ctx.pbt("c07-scale", cases, 400, |t, st| {
